@@ -226,6 +226,7 @@ pub fn run(ctx: &Ctx) -> Report {
 				schemes.push(Some(format!("s{}", "c".repeat(n - 1)).into_bytes()));
 			}
 			auths.push(Some(format!("h:{}", "1234567890".repeat(7)).into_bytes()));
+
 			let r = run_shards(ctx, auths.len(), |ai| {
 				let mut r = Report::new();
 				let mut vs = Vec::new();
@@ -250,10 +251,15 @@ pub fn run(ctx: &Ctx) -> Report {
 		}
 		// every printable ASCII character, one at a time, in every component position
 		{
-			let texts = domains::ascii_sweep(&[
+			let mut texts = domains::ascii_sweep(&[
 				"X", "aX", "Xa", "s:X", "s:aXb", "sX:a", "//X", "//uX@h", "//X@h", "//hX", "//hX:1", "//h:1X", "//[::1]X", "/pX/q", "/p/Xq", "?X", "?aXb", "#X", "#aXb", "s://u@h:1/pX?qX#fX",
 				"s://h/p?q#fX", "s://h/p?qX#f", "s://hX/p?q#f", "X//h", "a/X:b",
 			]);
+			// offsets that do not fit 16 bits, one component at a time
+			let huge = "z".repeat(70_000);
+			for t in [format!("s://h/p?{huge}#f"), format!("s://h/{huge}/x?q#f"), format!("s://u@{huge}:1/p?q#f"), format!("s://h/p?q#{huge}"), format!("//{huge}@h/p"), format!("{huge}/x?q")] {
+				texts.push(t.into_bytes());
+			}
 			let mut r = Report::new();
 			let mut vs = Vec::new();
 			for t in &texts {
